@@ -244,7 +244,7 @@ def run_point(p: Dict[str, Any], verbose: bool = False) -> Tuple[Optional[Dict[s
             verdict = None
             if problems:
                 verdict = {"what": f"C09 {p}: {problems[0]}", "replay": {"problems": problems}, "signature": {"check": "twice"}}
-            return verdict, obs, 1
+            return verdict, obs, w.loop.handles_run
         n0 = 0
         w.advance_to_ms(t0 + 4000)
         # a query afterwards: the conflicting name must not be answered for
@@ -284,7 +284,7 @@ def run_point(p: Dict[str, Any], verbose: bool = False) -> Tuple[Optional[Dict[s
     if problems:
         verdict = {"what": f"C09 {p}: {problems[0][:600]}", "replay": {"problems": problems[:5]},
                    "signature": {"check": problems[0].split(":")[0]}}
-    return verdict, obs, 1
+    return verdict, obs, w.loop.handles_run
 
 
 async def _reg_plain(host: Any, info: Any) -> None:
